@@ -17,9 +17,13 @@ P = {
          "survives every validated applied transition for every instance with non-negative times, every oracle/seed "
          "(C01_one_transition_partial), hence holds in every state and micro-state reachable through the middleware under any "
          "action sequence of any length (C01_reachable_partial, C01_micro_states_partial, C01_step_partial), and end to end from "
-         "every document the compiler model accepts (C01_from_document_partial). PARTIAL: one side "
-         "condition (transit_side_b: an AGV never takes a job in process) is a hypothesis on the micro-log, evaluated by the "
-         "extracted monitor on every transition the implementation applies. " + TIE),
+         "every document the compiler model accepts (C01_from_document_partial). For instances whose machine post-buffers are "
+         "unordered (FLEX, the compiler's default) the statement is UNCONDITIONAL: C01_reachable_flex / C01_micro_states_flex / "
+         "C01_side_condition_derived_flex - every state and micro-state of every run (plain reach, no hypothesis on the log) from "
+         "an initial state meeting boolean hypotheses (checked on every compiled initial state) is feasible; the side condition is "
+         "derived by a provenance argument over batches (SMP/Prov, LiftProv, ProvBatch). For ordered (FIFO/LIFO/DUMMY) machine "
+         "post-buffers it stays PARTIAL: one side condition (transit_side_b: an AGV never takes a job in process) is a hypothesis "
+         "on the micro-log, evaluated by the extracted monitor on every transition the implementation applies. " + TIE),
  "C02": ("SM", "Theorems (Props/C02.v; SMP/Post, Offers): exact post-state of SETUP->WORKING (operation and machine get start=now, "
          "end=now+d with d the value sampled now, once), of WORKING->OUTAGE (end extended by exactly the longest active outage), of "
          "OUTAGE->IDLE (record DONE with end=now), outage lengths non-negative, and timed transitions are created only when due "
@@ -32,13 +36,15 @@ P = {
          "one job in TRANSIT and none otherwise (C03_agv_load_*, unconditional, SMP/Agv.v) and its phase agrees with its claim, route and "
          "place - idle and broken-down AGVs are empty and stand at a place, a broken-down AGV has no claim, the WORKING phase is never "
          "entered (C03_agv_phase_*, unconditional); a busy machine holds exactly one job, an "
-         "idle one none (C03_machine_holds_one_partial, corollary of the C01 invariant with its monitored side condition). " + TIE),
+         "idle one none (C03_machine_holds_one_partial, corollary of the C01 invariant with its monitored side condition; "
+         "C03_machine_holds_one_flex: unconditional for instances with unordered machine post-buffers). " + TIE),
  "C04": ("Env", "Theorems (Props/C04.v; SMP/Decline, Atomic): env model - a done episode refuses steps (C04_done_raises), terminated and "
          "truncated are never both set (C04_exclusive), terminated iff the middleware result has no offers and all jobs are in output "
          "buffers (C04_term_flag), the reported makespan is the clock set to the latest DONE end (C04_makespan_is_clock); a job in an "
          "OUTPUT buffer has all operations done in every reachable state, so a terminated episode has finished all work "
          "(C04_output_done_partial, C04_terminated_all_done_partial; SMP/OutputDone.v, invariant carried with FE and the AGV-load "
-         "invariant) - PARTIAL: two side conditions on applied TRANSIT transitions (job not in process, job = the AGV's claim) are "
+         "invariant; C04_output_done_flex / C04_terminated_all_done_flex: UNCONDITIONAL over plain runs for instances whose machine "
+         "post-buffers are unordered, the compiler's default) - otherwise PARTIAL: two side conditions on applied TRANSIT transitions (job not in process, job = the AGV's claim) are "
          "hypotheses on the micro-log, evaluated by the extracted monitors on every transition the implementation applies. " + TIE +
          " env.step of the implementation is replayed on the env model; an independent reading of flags/makespan runs on every step; when "
          "the correspondence breaks a directed search (phased policies, zero-travel shops, truncation on) looks for a failing input."),
@@ -61,7 +67,9 @@ P = {
          "the BACK of the route's destination buffer and frees the AGV claim; AGV timed events are created only when due; the pickups "
          "the simulator schedules itself are only for the claimed job and only when it is ready (C07_pickup_only_claimed_ready) and "
          "satisfy, where created, the side conditions the partial theorems of C01/C04 assume (C07_side_conditions_at_creation). One "
-         "transition at a time, all states/instances/oracles. " + TIE),
+         "transition at a time, all states/instances/oracles. Over whole runs, for instances with unordered (FLEX) machine "
+         "post-buffers: EVERY -> TRANSIT transition applied in ANY run takes the AGV's own claim and a job that is not in process "
+         "(C07_every_pickup_claimed_and_not_in_process_flex; no AGV ever waits on a time dependency). " + TIE),
  "C08": ("SM", "Theorems (Props/C08.v): capacity_b (no buffer above its capacity) in every reachable state and micro-state (from WFS); "
          "insertion at the back and release-by-discipline are post-state theorems in SMP/Post (post_to_transit: an ordered buffer "
          "releases only the position its discipline allows, otherwise the AGV keeps waiting) and extracted event monitors "
